@@ -4,8 +4,10 @@ import (
 	"bytes"
 	"fmt"
 
+	ike "github.com/free5gc/ike"
 	"github.com/free5gc/ike/eap"
 	"github.com/free5gc/ike/message"
+	"github.com/free5gc/ike/security"
 
 	"verifharness/abs"
 	"verifharness/bridge"
@@ -122,7 +124,9 @@ func firstDiffClass(m *abs.Msg) string {
 
 func c12EAP(k *core.Case, b []byte, canonical bool, src string) {
 	k.Eval(1)
-	w := func() M { return M{"input": core.HexClip(b, 4096), "source": src, "canonical": canonical, "level": "EAP"} }
+	w := func() M {
+		return M{"input": core.HexClip(b, 4096), "source": src, "canonical": canonical, "level": "EAP"}
+	}
 	var err error
 	d1 := new(eap.EAP)
 	p := core.Try(func() { err = d1.Unmarshal(b) })
@@ -209,11 +213,11 @@ func c12(c *core.Ctx) {
 		sk := []byte{0, 0, 0, 24, 1, 2, 3, 4, 5, 6, 7, 8, 9, 10, 11, 12, 13, 14, 15, 16, 17, 18, 19, 20}
 		w := [][]byte{
 			hdr(abs.PSK, append(append([]byte{}, sk...), 36, 0x43, 0, 6, 7, 8, 0, 0, 0, 12, 11, 0, 0, 0, 1, 2, 3, 4)), // D17: SK (next=0), skipped type-0 payload, IDr
-			hdr(abs.PSK, append(append([]byte{41}, sk[1:]...), 0, 0, 0, 8, 0, 0, 0x40, 1)),                           // SK followed by a Notify
-			hdr(abs.PDelete, []byte{0, 0, 0, 18, 3, 5, 0, 2, 1, 2, 3, 4, 5, 6, 7, 8, 9, 10}),                            // D15: two 5-octet SPIs
-			hdr(abs.PDelete, []byte{0, 0, 0, 12, 3, 2, 0, 2, 1, 2, 3, 4}),                                              // D15: two 2-octet SPIs
-			hdr(abs.PKE, []byte{0, 0, 0, 4}),                                                                           // D16: empty KE body
-			hdr(abs.PCP, []byte{39, 0, 0, 4, 0, 0, 0, 4}),                                                              // D16: empty CP then empty AUTH
+			hdr(abs.PSK, append(append([]byte{41}, sk[1:]...), 0, 0, 0, 8, 0, 0, 0x40, 1)),                            // SK followed by a Notify
+			hdr(abs.PDelete, []byte{0, 0, 0, 18, 3, 5, 0, 2, 1, 2, 3, 4, 5, 6, 7, 8, 9, 10}),                          // D15: two 5-octet SPIs
+			hdr(abs.PDelete, []byte{0, 0, 0, 12, 3, 2, 0, 2, 1, 2, 3, 4}),                                             // D15: two 2-octet SPIs
+			hdr(abs.PKE, []byte{0, 0, 0, 4}),                                                                          // D16: empty KE body
+			hdr(abs.PCP, []byte{39, 0, 0, 4, 0, 0, 0, 4}),                                                             // D16: empty CP then empty AUTH
 		}
 		c12Msg(k, w[k.Index], false, "regression-corpus")
 	})
@@ -429,6 +433,11 @@ func c13One(k *core.Case, base *abs.Msg, ins []abs.Payload, pos []int, o *ref.Op
 		}
 		k.Count("skipped_ok", 1)
 	}
+	if len(wire) > 16 && wire[16] != abs.PSK {
+		if !c13Again(k, wire, nil, k.R.Bool(), base, anyCrit, w, "cleartext") {
+			return
+		}
+	}
 	for i, in := range ins {
 		where := "middle"
 		if pos[i] == 0 {
@@ -444,6 +453,45 @@ func c13One(k *core.Case, base *abs.Msg, ins []abs.Payload, pos []int, o *ref.Op
 	if k.WantSample() && len(wire) < 200 {
 		k.Sample(w)
 	}
+}
+
+// c13Again: the same datagram presented again with the header object that was parsed for the first presentation
+// (a retransmission, or the retry after the SA lookup): every presentation must have the outcome want / wantErr.
+func c13Again(k *core.Case, wire []byte, key *security.IKESAKey, recvInit bool, want *abs.Msg, wantErr bool, w M, tag string) bool {
+	var bad string
+	p := core.Try(func() {
+		hdr, err := message.ParseHeader(wire)
+		if err != nil {
+			if !wantErr {
+				bad = "ParseHeader: " + err.Error()
+			}
+			return
+		}
+		for round := 0; round < 3; round++ {
+			lm, err := ike.DecodeDecrypt(wire, hdr, key, role(recvInit))
+			if (err != nil) != wantErr {
+				bad = fmt.Sprintf("presentation %d with the same parsed header: error=%v, expected error=%v (%s)", round+1, err != nil, wantErr, errStr(err))
+				return
+			}
+			if err == nil && (lm == nil || !abs.Equal(want, bridge.ObserveMsg(lm))) {
+				bad = fmt.Sprintf("presentation %d with the same parsed header decodes differently", round+1)
+				if lm != nil {
+					bad += ": " + abs.Diff(want, bridge.ObserveMsg(lm))
+				}
+				return
+			}
+		}
+	})
+	if p != nil {
+		k.Violate("panic", "decode-again: "+p.Sig(), "panic", panicData(p, w))
+		return false
+	}
+	if bad != "" {
+		k.Violate("history", "repeated-presentation-with-one-parsed-header-differs/"+tag, bad, w)
+		return false
+	}
+	k.Count("presented_three_times_with_one_parsed_header", 1)
+	return true
 }
 
 func insTypes(ins []abs.Payload) []int {
@@ -557,6 +605,11 @@ func c13(c *core.Ctx) {
 			}
 			k.Count("before_SK_skipped_ok", 1)
 		}
+		if key2, err := libsa.NewKey(raw); err == nil {
+			if !c13Again(k, wire, key2, !init, base, anyCrit, w, "before-SK") {
+				return
+			}
+		}
 		k.Distinct(fmt.Sprintf("beforeSK|%s|%v|%d|%v", s.Name(), pre, n, anyCrit))
 	})
 	c.Family("critical-on-implemented", c.N(12000, 3000000), func(k *core.Case) {
@@ -565,7 +618,7 @@ func c13(c *core.Ctx) {
 		k.Count("critical_on_implemented", 1)
 		k.Distinct("crit-known|" + abs.Kinds(base))
 	})
-	c.Require("before_SK_rejected_critical", "before_SK_skipped_ok", "rejected_critical", "skipped_ok", "position_front", "position_middle", "position_end", "critical_on_implemented")
+	c.Require("presented_three_times_with_one_parsed_header", "before_SK_rejected_critical", "before_SK_skipped_ok", "rejected_critical", "skipped_ok", "position_front", "position_middle", "position_end", "critical_on_implemented")
 }
 
 var _ = message.TypeSK
